@@ -11,6 +11,8 @@
                                    thread-local Random() seeded from the OS)
                        OsRandom  - os.urandom / an own random.Random()
                        HashOrder - iteration order of a set of strings (PYTHONHASHSEED)
+                       SharedState - state a worker keeps across operations (what it holds depends on which operations the
+                                   thread handled before: the schedule)
    The list of sites of the CURRENT source is not written here: it is generated on every run by
    harness/props/c13_translate.py into Gen_C13.v (gen_sites).
 
@@ -19,7 +21,7 @@ From Coq Require Import List NArith Bool.
 Import ListNotations.
 Open Scope N_scope.
 
-Inductive akind := Unseeded | OsRandom | HashOrder.
+Inductive akind := Unseeded | OsRandom | HashOrder | SharedState.
 Inductive tag := Seeded (offset step : N) | Ambient (k : akind).
 Inductive phase := Examples | Coverage | Fuzzing | Stateful.
 
@@ -43,7 +45,7 @@ Definition phase_eqb (a b : phase) : bool :=
 
 Definition akind_eqb (a b : akind) : bool :=
   match a, b with
-  | Unseeded, Unseeded | OsRandom, OsRandom | HashOrder, HashOrder => true
+  | Unseeded, Unseeded | OsRandom, OsRandom | HashOrder, HashOrder | SharedState, SharedState => true
   | _, _ => false
   end.
 
